@@ -8,6 +8,7 @@ import ErgoProofs.Lemmas.ConcReach
 import ErgoProofs.Lemmas.StorageThm
 import ErgoProofs.Lemmas.PropsAux
 import ErgoProofs.Lemmas.ChunkedRead
+import ErgoProofs.Lemmas.ProgramThm
 namespace Ergo
 open Proc
 
@@ -77,5 +78,11 @@ theorem C13_in_place_truncation_refuted :
       Storage.chunkedRead [(v0, n0), (v1, n1)] [] ≠ v0 ∧ Storage.chunkedRead [(v0, n0), (v1, n1)] [] ≠ v1 ∧
       ¬ (Storage.chunkedRead [(v0, n0), (v1, n1)] [] <+: v1) :=
   Storage.in_place_truncation_splices
+
+
+/-- a reader's observed program (accepted by `readerOK`, T3) takes no lock and changes nothing -/
+theorem C13_reader_program_is_pure (p : List Program.Call) (h : Program.readerOK p = true) :
+    Program.abstract p = [] ∧ (∀ c ∈ p, Program.mutatesLog c = false) :=
+  Program.readerOK_pure p h
 
 end Ergo
